@@ -62,4 +62,40 @@ def run(tier, prop="C15", clauses=CLAUSES, extra=None, limit=None, depth=None):
                       "virtual clock in the coordination modules so that 'oldest' is decided by start order"]
     if extra:
         extra(R, tier)
+    if prop == "C15":
+        inheritance(R, tier, clauses)
     return R.finish()
+
+
+def inheritance(R, tier, clauses):
+    """Priority inheritance leg (operon_ai/coordination/priority.py): the C15 clauses judged on histories that also boost / restore priorities; the
+    inheritance clauses themselves belong to no listed property and are reported in the evidence only."""
+    from . import coordtimed, conform
+    quick = tier == "quick"
+    coordtimed.model_check_inherit(R, tier)
+    cs = coordtimed.iconfigs(tier)
+    sd = base.seed()
+    with cf.ProcessPoolExecutor(max_workers=8) as ex:
+        res = list(ex.map(coordtimed.explore_inherit, [(dict(c, maxnodes=15000 if quick else 300000), 7 if quick else 9, sd + i) for i, c in enumerate(cs)]))
+        sres = list(ex.map(coordtimed.simulate_inherit, [(c, 300 if quick else 3000, 18 if quick else 26, sd + 11 * i) for i, c in enumerate(cs)]))
+    conform.settle_audit(res + sres)
+    extra_fail = 0
+    for x in res + sres:
+        n = x.get("edges", x.get("steps", 0))
+        R.cov["traces_validated_against_impl"] += n
+        R.cov["evaluations"] += n
+        R.cov["drift"] += x["drift"]
+        extra_fail += x["extra_fail_count"]
+        for s_, w in x["fails"]:
+            if w["clause"] in clauses:
+                R.violation(s_, w)
+    R.cov["priority_inheritance"] = {"explored_edges": sum(x["edges"] for x in res), "boosts_applied": sum(x["boosts_applied"] for x in res),
+                                     "preemptions_while_boosts_active": sum(x["preemptions_with_boosts_active"] for x in res),
+                                     "tlc_behaviours_replayed": sum(x["behaviours"] for x in sres), "replay_mismatch": sum(x["mismatch"] for x in sres),
+                                     "inheritance_clause_failures(no listed property)": extra_fail,
+                                     "inheritance_clause_failure_samples": [f for x in res for f in x["extra_clause_failures"]][:3]}
+    smp = next((x["sample"] for x in res if x.get("sample")), None)
+    if smp:
+        R.sample({"priority_inheritance_double_boost": smp}, cap=6)
+    R.cov["rule"] += ("; plus Inheritance.tla (ordered wait-for graph refining the set-valued one, check_and_boost / restore_priority / clear_all, lock-recorded priorities) "
+                      "model-checked, the controller + PriorityInheritance explored breadth-first and walked by Trace_Inheritance, TLC -simulate behaviours replayed")
